@@ -1016,7 +1016,7 @@ func (w *Worker) rangeIter(fr *frame, x Value, t types.Type) Value {
 
 // appendVals implements append(dst, src...): in place iff the capacity suffices (exact),
 // otherwise a fresh backing array with amortised-doubling spare capacity.
-func (w *Worker) appendVals(dst SliceV, src []Value) SliceV {
+func (w *Worker) appendVals(dst SliceV, src []Value, elemSize int, noscan bool) SliceV {
 	if len(src) == 0 {
 		return dst
 	}
@@ -1027,10 +1027,7 @@ func (w *Worker) appendVals(dst SliceV, src []Value) SliceV {
 		return SliceV{Base: dst.Base, Off: dst.Off, Len: dst.Len + len(src), Cap: dst.Cap, NonNil: true}
 	}
 	n := dst.Len + len(src)
-	c := n
-	if dst.Cap*2 > c {
-		c = dst.Cap * 2
-	}
+	c := growCap(dst.Cap, n, elemSize, noscan)
 	base := make([]Value, c)
 	for i := 0; i < dst.Len; i++ {
 		base[i] = copyVal(dst.Base[dst.Off+i])
@@ -1045,6 +1042,80 @@ func (w *Worker) appendVals(dst SliceV, src []Value) SliceV {
 		}
 	}
 	return SliceV{Base: base, Len: n, Cap: c, NonNil: true}
+}
+
+// Go 1.23 runtime: capacity of the array that append allocates when it has to grow (runtime.growslice:
+// nextslicecap, then rounding up to the allocator's size class).  The capacity decides whether a LATER
+// append writes in place, i.e. whether two slices alias - which is what C18 is about.
+var sizeClasses = []int{0, 8, 16, 24, 32, 48, 64, 80, 96, 112, 128, 144, 160, 176, 192, 208, 224, 240, 256, 288, 320, 352, 384, 416, 448, 480, 512, 576, 640, 704, 768, 896, 1024, 1152, 1280, 1408, 1536, 1792, 2048, 2304, 2688, 3072, 3200, 3456, 4096, 4864, 5376, 6144, 6528, 6784, 6912, 8192, 9472, 9728, 10240, 10880, 12288, 13568, 14336, 16384, 18432, 19072, 20480, 21760, 24576, 27264, 28672, 32768}
+
+func roundUpSize(size int, noscan bool) int {
+	req := size
+	if req <= 32768-8 {
+		if !noscan && req > 512 {
+			req += 8
+		}
+		for _, c := range sizeClasses {
+			if c >= req {
+				return c - (req - size)
+			}
+		}
+	}
+	const page = 8192
+	return (size + page - 1) &^ (page - 1)
+}
+
+func growCap(oldCap, newLen, elemSize int, noscan bool) int {
+	newcap := oldCap
+	double := newcap + newcap
+	switch {
+	case newLen > double:
+		newcap = newLen
+	case oldCap < 256:
+		newcap = double
+	default:
+		for {
+			newcap += (newcap + 3*256) >> 2
+			if newcap >= newLen {
+				break
+			}
+		}
+	}
+	if elemSize <= 0 {
+		return newcap
+	}
+	return roundUpSize(newcap*elemSize, noscan) / elemSize
+}
+
+var gcSizes = types.SizesFor("gc", "amd64")
+
+func hasPointers(t types.Type) bool {
+	switch u := t.Underlying().(type) {
+	case *types.Basic:
+		return u.Kind() == types.String || u.Kind() == types.UnsafePointer
+	case *types.Array:
+		return u.Len() > 0 && hasPointers(u.Elem())
+	case *types.Struct:
+		for i := 0; i < u.NumFields(); i++ {
+			if hasPointers(u.Field(i).Type()) {
+				return true
+			}
+		}
+		return false
+	}
+	return true
+}
+
+// elemLayout: element size and pointer-freeness of the slice being appended to (from the call's static type).
+func (w *Worker) elemLayout(fr *frame, _ Value) (int, bool) {
+	if c, ok := fr.curInstr.(ssa.CallInstruction); ok {
+		if as := c.Common().Args; len(as) > 0 {
+			if st, ok := as[0].Type().Underlying().(*types.Slice); ok {
+				return int(gcSizes.Sizeof(st.Elem())), !hasPointers(st.Elem())
+			}
+		}
+	}
+	return 1, true
 }
 
 func (w *Worker) callBuiltin(fr *frame, fn *ssa.Builtin, args []Value) Value {
@@ -1077,7 +1148,8 @@ func (w *Worker) callBuiltin(fr *frame, fn *ssa.Builtin, args []Value) Value {
 			w.unsupported("append to poison")
 			return args[0]
 		}
-		return w.appendVals(w.concSlice(dst), src)
+		es, ns := w.elemLayout(fr, args[0])
+		return w.appendVals(w.concSlice(dst), src, es, ns)
 	case "copy":
 		dst, ok := args[0].(SliceV)
 		if !ok {
